@@ -146,6 +146,40 @@ static void run_array(const std::vector<int> &elems, vx::Ctx &ctx) {
             ctx.fail("GroupBy(y) through pointers of " + desc, "the source array was modified");
         }
     }
+    {
+        // the result value is the source itself
+        V self(arr);
+        const bool ok4 = self.GroupBy(self, "ky");
+        ctx.acc.count("evals");
+        const std::string got4 = ref::dump(self, false);
+        if (!ok4 || got4 != expected) {
+            ctx.fail("GroupBy(y) into the source itself, of " + desc, std::string(ok4 ? "" : "returned false; ") + "result " + got4 + ", partition " + expected);
+        }
+    }
+    if (arr.Size() != 0) {
+        // the same array emptied (its storage stays): nothing to group, and nothing of the old items may be looked at
+        for (int how = 0; how < 2; how++) {
+            V emptied(arr);
+            V::ArrayT *a = const_cast<V::ArrayT *>(emptied.GetArray());
+            if (how == 0) {
+                a->Clear();
+            } else {
+                a->Drop(a->Size());
+            }
+            V          g5;
+            const bool ok5 = emptied.GroupBy(g5, "ky");
+            ctx.acc.count("evals");
+            if (ok5 && g5.Size() != 0) {
+                ctx.fail(std::string("GroupBy(y) of the emptied array (") + (how == 0 ? "Clear" : "Drop") + ") of " + desc, "produced groups: " + ref::dump(g5, false));
+            }
+            static const char *tpl5 = "<loop value=\"v\" group=\"ky\">{var:v}</loop>";
+            StringStream<char> s5;
+            Template::Render(tpl5, SizeT(strlen(tpl5)), emptied, s5);
+            if (s5.Length() != 0) {
+                ctx.fail(std::string("<loop group=y> over the emptied array of ") + desc, "rendered '" + std::string(s5.First(), s5.Length()) + "'");
+            }
+        }
+    }
     ctx.acc.outcome(vx::hstr(expected));
     // the same partition through <loop group="y">
     {
